@@ -139,6 +139,19 @@ def make_frame(ftype: int, cr: int, dlci: int, pf: int, payload: bytes = b'', cr
     return head + body + bytes([fcs(head[:2]) if ftype == UIH else fcs(head)])
 
 
+def make_mcc(mcc_type: int, cr: int, value: bytes) -> bytes:
+    """Reference encoder of one multiplexer control command (type octet, length indicator, value)."""
+    n = len(value)
+    ln = bytes([(n << 1) | 1]) if n <= 0x7F else bytes([(n & 0x7F) << 1, n >> 7])
+    return bytes([(mcc_type << 2) | (cr << 1) | 1]) + ln + value
+
+
+def make_pn(dlci: int, n1: int, k: int, cl: int = 0xE, priority: int = 7) -> bytes:
+    """Reference encoder of the 8-octet PN value (TS 07.10 5.4.6.3.1 as used by RFCOMM: I-bits 0, CL in the
+    high nibble of octet 2, T1 = 0, N1 little endian, N2 = 0, K in the low three bits of octet 8)."""
+    return bytes([dlci & 0x3F, (cl & 0x0F) << 4, priority & 0x3F, 0, n1 & 0xFF, (n1 >> 8) & 0xFF, 0, k & 0x07])
+
+
 class Mcc:
     __slots__ = ('type', 'cr', 'value', 'problems')
 
